@@ -214,7 +214,7 @@ def step (w : World) (line : String) : World × String :=
           match w.p[i]!.generate (ent w i) n with
           | none => (w, "crash SIGSEGV")
           | some r => ({ (w.putEnt i r.e) with p := w.p.set! i r.p },
-                       s!"out={toHex r.out} reqs={listNat r.reqs} calls={r.e.oscalls} slack=ok")
+                       s!"out={toHex r.out} reqs={listNat (reqPositions r.trace 0)} calls={r.e.oscalls} slack=ok")
         | none => bad
       | "p.feed" => match parseHex a with
         | some b => ({ w with p := w.p.set! i (w.p[i]!.feed b) }, "ok") | none => bad
